@@ -1,6 +1,6 @@
 (* C19 — well-checksummed but inconsistent archives are rejected without crashing.
    An inconsistent archive is again just a file-system state: the theorems quantify over all of them. *)
-From Gopar Require Import Model.Base Model.CRC Model.GoPath Model.FS Model.Par2 Proofs.Par2Facts Proofs.Par2Verify.
+From Gopar Require Import Model.Base Model.CRC Model.GoPath Model.FS Model.Par2 Proofs.Par2Facts Proofs.Par2Verify Proofs.Par2Faults.
 Open Scope N_scope.
 
 Theorem C19_verify_no_panic : forall md5 ix st p, fst (par2_verify md5 ix st) <> Panic p.
@@ -20,3 +20,8 @@ Theorem C19_writes_match_archive_hashes : forall md5 ix dbl fs r rp st',
                        N.of_nat (length (snd w)) = di_len info) ws.
 Proof. exact repair_writes. Qed.
 Print Assumptions C19_writes_match_archive_hashes.
+
+Theorem C19_repair_no_panic : forall md5 ix dbl st p,
+  fst (fst (par2_repair md5 ix dbl st)) <> Panic p.
+Proof. intros md5 ix dbl st p. exact (repair_no_panic md5 ix dbl st p []). Qed.
+Print Assumptions C19_repair_no_panic.
